@@ -595,6 +595,8 @@ namespace GeographicLib {
       if (outmask & GEODESICSCALE)
         M12 = M21 = cos(sig12);
       a12 = lon12 / _f1;
+      // lon12s >= f * 180 holds only up to round-off; keep a12 in [0, 180]
+      if (a12 > Math::hd) a12 = Math::hd;
 
     } else if (!meridian) {
 
